@@ -5,6 +5,7 @@ package actionlint
 import (
 	"os/exec"
 	"strconv"
+	"strings"
 )
 
 // C20, scheduling: Linter.LintFiles with the shellcheck integration enabled on
@@ -18,6 +19,9 @@ import (
 func verifC20SchedOutput(c *exec.Cmd) ([]byte, error) {
 	verifTraceEvent("proc-start")
 	verifTraceEvent("proc-end")
+	if strings.HasSuffix(c.Path, "pyflakes") {
+		return []byte(""), nil
+	}
 	return []byte("[]"), nil
 }
 
@@ -27,11 +31,16 @@ func verifC20SchedWorkflow(steps int) string {
 	src := "on: push\njobs:\n  j:\n    runs-on: ubuntu-latest\n    steps:\n"
 	for k := 0; k < steps; k++ {
 		src += "      - run: echo " + strconv.Itoa(k) + "\n"
+		if k%2 == 1 {
+			src += "        shell: python\n" // odd steps go to pyflakes
+		}
 	}
 	return src
 }
 
-func HarnessC20Schedule(files, steps, cpus int) {
+// enc = 0: partial-order encoding (time stamps per atomic block); enc = 1: step-indexed
+// encoding (one symbolic goroutine id per step) — the two are diffed on the small instance.
+func HarnessC20Schedule(files, steps, cpus, enc int) {
 	if verifIsNative() {
 		verifC20NativeSchedule()
 		return
@@ -58,12 +67,12 @@ func HarnessC20Schedule(files, steps, cpus int) {
 	verifC20 = verifC20Cmd{}
 	verifC20JSON.fail, verifC20JSON.n = false, 0
 	verifOverride("encoding/json.Unmarshal", verifC20Unmarshal)
-	l := &Linter{projects: NewProjects(), cwd: "/r", out: nil, shellcheck: "shellcheck"}
+	l := &Linter{projects: NewProjects(), cwd: "/r", out: nil, shellcheck: "shellcheck", pyflakes: "pyflakes"}
 	verifTraceStart()
 	errs, err := l.LintFiles(args, nil)
 	verifTraceEvent("return")
 	verifCheck(err == nil, "lint-failed")
 	verifCheck(len(errs) == 0, "unexpected-diagnostics")
 	verifReach("linted")
-	verifScheduleCheck(cpus)
+	verifScheduleCheck(cpus, enc)
 }
